@@ -152,7 +152,9 @@ def run_property(pid, rule_fn, explanation, assumptions, tier="quick", replay=No
         rule_fn(prog, ctx)
         for rid, (n, why) in ctx.minimums.items():
             got = ctx.count(rid)
-            if got < n:
+            # the instance floor guards against a *vacuous pass*; when the rule already reports
+            # findings they are what the reader needs, not an analysis error
+            if got < n and not ctx.findings:
                 raise AnalysisError(
                     f"rule {rid} matched {got} instance(s), fewer than the {n} confirmed by hand"
                     f" ({why}); the rule would pass vacuously"
